@@ -162,6 +162,15 @@ package slip
 //@   on-map-delete vars own-table-or-own-entry-of-a-user: $owner == obj || ($was != nil && $was.Pkg == obj)
 //@   on-map-delete vars removes-the-named-variable: $key == name
 
+// setting / reading a variable through a package: only an exported variable,
+// or any variable of the current package (or an explicitly private access),
+// can be written or read; constants are never written; users get the very same
+// cell and never lose a definition they already have.
+//@ func slip.(*Package).SetIfHas
+//@   property C13
+//@   on-store Val visible-and-not-constant: (vv.Export || CurrentPackage == obj || private) && !vv.Const && vv == obj.vars[name]
+//@   on-map-update vars users-get-the-same-cell: $value == vv && $key == name && $was == nil
+
 // import: the imported name refers to the very object of the source package and
 // is recorded with its origin.
 //@ func slip.(*Package).Import
